@@ -351,6 +351,28 @@ prop('C08',
               'ordering between protocols and the manager (cross-task)'],
      )
 
+prop('C11',
+     explanation='Bounded symbolic execution of one endpoint\'s real notification protocol: NotificationProtocol::next_event (a biased tokio::select! over the handshake service, '
+                 'stream shutdown reports, timers, transport events, validation results and user commands) with every handler behind it, the real NotificationHandle on the user\'s side, '
+                 'the real HandshakeService over real Substreams whose remote ends are scripted, and the per-stream Connection tasks collected by a harness executor; the user-visible '
+                 'event grammar is checked after every step.',
+     units=[
+         dict(harness='c11_notification_protocol', covers=['c11.connected', 'c11.disconnected', 'c11.user.open', 'c11.user.close', 'c11.outbound.opened', 'c11.outbound.failed', 'c11.inbound.opened',
+                                                           'c11.event.validate', 'c11.user.accept', 'c11.user.reject', 'c11.event.open-failure', 'c11.probe'],
+              min_paths=1000, split={'quick': 5, 'thorough': 7}, params={'quick': {'steps': 4, 'io_budget': 0, 'fifo_futures': 1}, 'thorough': {'steps': 6, 'io_budget': 0, 'fifo_futures': 1}},
+              conform={'quick': 100, 'thorough': 1000}, nvals=40),
+         dict(harness='c11_notification_protocol', name='c11_notification_open', covers=['c11.event.opened', 'c11.event.closed', 'c11.outbound.opened', 'c11.inbound.opened', 'c11.event.notification'],
+              min_paths=100, split={'quick': 4, 'thorough': 6}, params={'quick': {'steps': 3, 'warm': 4, 'io_budget': 0, 'fifo_futures': 1}, 'thorough': {'steps': 4, 'warm': 4, 'io_budget': 1, 'fifo_futures': 1}},
+              conform={'quick': 100, 'thorough': 1000}, nvals=40),
+     ],
+     assumptions=['one remote peer, one connection at a time; the remote is scripted through its substreams (sends its handshake and stays, or closes)',
+                  'timers (10 s negotiation / open time-outs) never fire within the explored window',
+                  'tokio mpsc / oneshot models; FuturesUnordered serves ready futures in the real implementation\'s FIFO order; the biased select! polls its branches in source order (as the real macro does)'],
+     bounds={'events': 'quick 5, thorough 6 of connect / disconnect / user open / user close / answer the pending substream request (fails, remote handshakes, remote closes) / remote opens an inbound substream (closes at once / handshakes and stays / handshakes, sends one notification and closes or stays) / user validation answer / poll stream tasks; then the connection is lost and everything is polled',
+             'carrier': 'io_budget scripted answers (quick 0: ideal carrier)'},
+     outside=['two real endpoints talking to each other (the remote is scripted)', 'several peers and simultaneous connections', 'time-outs', 'notification traffic on the open stream (C12)'],
+     )
+
 prop('C12',
      explanation='Bounded symbolic execution of the real per-stream notification task (notification::Connection::start and its Stream::poll_next, '
                  'including the tokio::select! over the two send queues, PollSender reservation towards the user, the shutdown oneshot) together with the '
